@@ -358,7 +358,7 @@ PARTS = {
   "mixed": Part("mixed", check, strategy=cases(P_MIXED), n=(800, 80000), shrinker=SHRINK, required_labels=("mode-switch",)),
   "classes": Part("classes", check, strategy=cases(P_CLASSES), n=(1200, 120000), shrinker=SHRINK,
                   required_labels=("undoubled-control", "roll:base-row-not-15", "pad-inside-displayed-row", "paint:accumulates-without-EDM",
-                                   "mid-row-run", "roll:blank-row", "pop:load-over-leftover", "pop:load-over-leftover:other-rows", "mode-switch")),
+                                   "mid-row-run", "roll:blank-row", "channel-2-twin-of-previous-code", "pop:load-over-leftover", "pop:load-over-leftover:other-rows", "mode-switch")),
   "c1": Part("c1", check, strategy=cases(P_C1), n=(320, 16000), shrinker=SHRINK,
              required_labels=("paint:caption-below-earlier-paint-on-caption",)),
   "c2": Part("c2", check, strategy=cases(P_C2), n=(320, 16000), shrinker=SHRINK),
